@@ -184,6 +184,52 @@ Definition get_option (allow_unreg : bool) (key : list Z) (t : Z) (c : ctx) : lo
   | FAmbiguous r => Ambiguous r
   end.
 
+(* A lookup made by a PARSER: parseCommandLine / parseCommandArray / parseCommandString / parseCfgFile all build a
+   DefaultContext(ctx, allowUnreg, ..) and resolve names through DefaultContext::getOption - the long spelling
+   (--key=v, config line "key = v") with find_name_or_prefix, the short spelling (-cv) with find_alias.  The entry point
+   does not occur in the result: every one of them goes through get_option.  A key the harness cannot spell as one
+   token (blank, quote, backslash, '=', control or high byte, leading '-' or '#'; short spelling: not one character;
+   config files have no short spelling: the long one is used) is skipped by harness and model alike (observation 7). *)
+Definition plain_byte (b : Z) : bool :=
+  (33 <=? b) && (b <=? 126) && negb (b =? 34) && negb (b =? 39) && negb (b =? 61) && negb (b =? 92).
+Definition plain_key (key : list Z) : bool :=
+  match key with
+  | [] => false
+  | b :: _ => negb (b =? DASH) && negb (b =? 35) && forallb plain_byte key
+  end.
+Definition parser_lookup (key : list Z) (short allow entry : Z) (c : ctx) : option lookup :=
+  let sh := negb (short =? 0) && negb (entry mod 4 =? 3) in
+  if plain_key key && (negb sh || (length key =? 1)%nat)
+  then Some (get_option (negb (allow =? 0)) key (if sh then find_alias else find_name_or_prefix) c)
+  else None.
+
+(* A SEQUENCE of names resolved within ONE parser run, i.e. through ONE DefaultContext: token number j (1, 2, ..) is "--key=j" / "-cj" /
+   the config line "key = j".  CommandLineParser::doParse / CfgFileParser::doParse take the tokens one after the other and resolve each through
+   DefaultContext::getOption: an option that is found is appended to the parsed values (addValue) with the token's value; a key that nothing
+   matches is left alone when allowUnregistered (remaining arguments / skipped section); the first lookup that throws ends the parse, and the
+   values collected so far are lost with the exception.  DefaultContext::getOption consults the option context's index and nothing else: it
+   carries NO state from one lookup to the next, so `seq_run` hands every token to the same `parser_lookup` over the same context.
+   If one of the keys cannot be spelled as a token nothing is run (observation 7). *)
+Inductive seq_res :=
+| SOk (ps : list (nat * nat))      (* the parsed values: (token number, option) in the order of the tokens *)
+| SErr (f : lookup).               (* UnknownOption / AmbiguousOption thrown by the first failing lookup *)
+Definition tok_spellable (entry : Z) (t : list Z * Z) : bool :=
+  let sh := negb (snd t =? 0) && negb (entry mod 4 =? 3) in
+  plain_key (fst t) && (negb sh || (length (fst t) =? 1)%nat).
+Fixpoint seq_run (toks : list (list Z * Z)) (j : nat) (allow entry : Z) (c : ctx) (acc : list (nat * nat)) : seq_res :=
+  match toks with
+  | [] => SOk acc
+  | (key, short) :: r =>
+      match parser_lookup key short allow entry c with
+      | Some (Found i) => seq_run r (S j) allow entry c (acc ++ [(j, i)])
+      | Some NotFound => seq_run r (S j) allow entry c acc
+      | None => seq_run r (S j) allow entry c acc          (* not reached: parser_seq runs spellable tokens only *)
+      | Some f => SErr f
+      end
+  end.
+Definition parser_seq (toks : list (list Z * Z)) (allow entry : Z) (c : ctx) : option seq_res :=
+  if forallb (tok_spellable entry) toks then Some (seq_run toks 1 allow entry c []) else None.
+
 (* ---- case decoding / observation encoding (see harness/h_c14.cpp) ---- *)
 Definition enc_str (s : list Z) : list Z := Z.of_nat (length s) :: s.
 Definition get_str (l : list Z) : list Z * list Z :=
@@ -212,6 +258,15 @@ Fixpoint get_groups (n : nat) (l : list Z) : list (list Z * list opt) * list Z :
   | S m => let '(g, r1) := get_group l in let '(gs, r2) := get_groups m r1 in (g :: gs, r2)
   end.
 
+Fixpoint get_toks (n : nat) (l : list Z) : list (list Z * Z) * list Z :=
+  match n with
+  | O => ([], l)
+  | S m => let '(k, r1) := get_str l in
+           match r1 with
+           | sh :: r2 => let '(ts, r3) := get_toks m r2 in ((k, sh) :: ts, r3)
+           | [] => ([(k, 0)], [])
+           end
+  end.
 Definition enc_add (e : option (list Z)) : list Z :=
   match e with None => [0] | Some k => 1 :: enc_str k end.
 Definition enc_cands (r : list entry) : list Z :=
@@ -228,6 +283,12 @@ Definition enc_lookup (f : lookup) : list Z :=
   | Unknown => [1]
   | Ambiguous r => 2 :: enc_cands r
   | NotFound => [3]
+  end.
+Definition enc_seq (x : option seq_res) : list Z :=
+  match x with
+  | None => [7]
+  | Some (SOk ps) => 0 :: Z.of_nat (length ps) :: flat_map (fun p => [Z.of_nat (fst p); Z.of_nat (snd p)]) ps
+  | Some (SErr f) => enc_lookup f
   end.
 Definition dump (c : ctx) : list Z :=
   Z.of_nat (length (options c)) :: Z.of_nat (length (groups c)) ::
@@ -271,6 +332,19 @@ Fixpoint run_ops (fuel : nat) (l : list Z) (c : ctx) : list Z :=
           let '(key, r1) := get_str r in
           match r1 with
           | t :: m :: r2 => enc_fres (find_impl key t m c) ++ run_ops f r2 c
+          | _ => dump c
+          end
+      | 7 :: r =>                                   (* lookup through a parser entry point: DefaultContext::getOption *)
+          let '(key, r1) := get_str r in
+          match r1 with
+          | short :: allow :: entry :: r2 =>
+              (match parser_lookup key short allow entry c with Some x => enc_lookup x | None => [7] end) ++ run_ops f r2 c
+          | _ => dump c
+          end
+      | 8 :: n :: r =>                              (* n names resolved in ONE parser run (one DefaultContext) *)
+          let '(toks, r1) := get_toks (Z.to_nat n) r in
+          match r1 with
+          | allow :: entry :: r2 => enc_seq (parser_seq toks allow entry c) ++ run_ops f r2 c
           | _ => dump c
           end
       | _ => dump c
